@@ -61,7 +61,10 @@ Definition find_job (s : st) (c : ch) : option tid :=
 
 Inductive cmd :=
 | CSpawn (o : op)
-| CRelease (k : N) (b : bool)        (* the k-th spawned operation's thread *)
+| CRelease (k : N) (g : gk) (c : ch) (b : bool)
+    (* the k-th spawned operation's thread, parked at gate g for channel c; when several
+       threads were woken at the same wait gate the winner's identity is scheduler-chosen,
+       so any thread parked at (g, c) is accepted *)
 | CReleaseClose (b : bool)           (* the close thread that won the status flip *)
 | CReleaseJob (c : ch) (b : bool)
 | CTimeout (k : N)
@@ -73,11 +76,38 @@ Inductive cmd :=
 Definition at_gate (ar : gk -> bool) (s : st) (t : tid) : bool :=
   match thr s t with Some th => parks ar th | None => false end.
 
+Definition u_chan (u : urec) : ch := u_ch u.
+Definition thread_ch (th : thread) : ch :=
+  match th with
+  | TAtt a => a_ch a
+  | TUns u => u_ch u
+  | TCls k => match k_cur k with Some u => u_ch u | None => 99 end
+  | TTck k => match t_pc k with
+              | TAdd => hd 99 (t_todo k)
+              | TCompRem => hd 99 (t_rem k)
+              | _ => 99
+              end
+  | TCon _ => 99
+  | TJob c => c
+  end.
+Definition parked_at (ar : gk -> bool) (s : st) (g : gk) (c : ch) (t : tid) : bool :=
+  match thr s t with
+  | Some th => match gate_of th with
+               | Some g' => gk_eqb g g' && ar g' && (thread_ch th =? c)
+               | None => false
+               end
+  | None => false
+  end.
+Definition find_parked (ar : gk -> bool) (s : st) (k : N) (g : gk) (c : ch) : option tid :=
+  if parked_at ar s g c (2 * k) then Some (2 * k)
+  else find (parked_at ar s g c) (ext_tids s).
+
 Definition do_cmd (ar : gk -> bool) (s : st) (c : cmd) : option st :=
   let fin o := match o with Some s' => Some (settle rounds ar s') | None => None end in
   match c with
   | CSpawn o => fin (spawn s o)
-  | CRelease k b => if at_gate ar s (2 * k) then fin (step_thread s (2 * k) b) else None
+  | CRelease k g c b =>
+      match find_parked ar s k g c with Some t => fin (step_thread s t b) | None => None end
   | CReleaseClose b =>
       match find_close s with
       | Some t => if at_gate ar s t then fin (step_thread s t b) else None
